@@ -101,6 +101,7 @@ type RuleIntent struct {
 	TrigLen int        `json:"triglen,omitempty"` // 2 or 3 octets
 	Period  *uint32    `json:"period,omitempty"`  // seconds
 	MInfo   *uint8     `json:"minfo,omitempty"`
+	Linked  []uint32   `json:"linked,omitempty"` // Linked URR ID IEs (go-upf ignores them)
 	VolTh   *VolIntent `json:"volth,omitempty"`
 	VolQu   *VolIntent `json:"volqu,omitempty"`
 
@@ -446,6 +447,9 @@ func (r *RuleIntent) kids(update bool) []kid {
 		}
 		if r.MInfo != nil {
 			add(tlv(ieMeasInfo, *r.MInfo), "minfo")
+		}
+		for i, l := range r.Linked {
+			add(TLV{T: ieLinkedURRID, V: u32b(l)}, fmt.Sprintf("linked%d", i))
 		}
 		if r.VolTh != nil {
 			add(TLV{T: ieVolumeThreshold, V: r.VolTh.body()}, "volth")
